@@ -53,3 +53,9 @@ reg("C17", "model_checking", "explicit-state search over all read segmentations 
 reg("C15", "exploration", "bounded-exhaustive enumeration of peer input (all single-point mutations of valid conversations, structured HTTP/2 frames, token sequences) + fault enumeration",
     "Every single-point mutation at every offset of valid HTTP/1.1, HTTP/2, CONNECT and SOCKS5 conversations, frame type x flags x stream id x payload x position, HPACK/:status variants, all token sequences up to length 3/4, and every injected backend exception at every operation: the call must end with success or a documented httpcore exception whose class matches the cause, and must terminate.",
     _SEQ_NOTE, "DESIGN.md 5 C15")
+reg("C12", "model_checking", "explicit-state exploration of the real HTTP/2 connection on a virtual event loop against a frame-level peer whose events the explorer orders",
+    "All orders of per-stream HEADERS/DATA/END_STREAM/RST_STREAM, SETTINGS(MAX_CONCURRENT_STREAMS up/down/below in flight) and PING relative to 2-4 concurrent requests; token echo per stream, open-stream count by the peer's own books at every new stream, deadlock detection.",
+    _CONC_NOTE, "DESIGN.md 5 C12")
+reg("C14", "fault_enumeration", "fault-position and peer-event enumeration with a per-token request counter in the independent peers (sequential + virtual-loop worlds)",
+    "Every op x fault kind per connection type; concurrent requests with one fault anywhere (cold and warm multiplexed HTTP/2); HTTP/1.1-fallback races; GOAWAY with every relevant last-stream-id and RST_STREAM at every point: a token may be seen twice only for a stream above a GOAWAY last-stream-id, and no new stream may follow a GOAWAY the client has read.",
+    _CONC_NOTE, "DESIGN.md 5 C14")
